@@ -63,6 +63,11 @@ func strLit(s gen.Src) string {
 	rs := []rune(alpha)
 	out := make([]rune, 0, n)
 	for i := 0; i < n; i++ {
+		if s.Intn(10, "stresc") == 0 {
+			// escape sequences, kept raw by the parser; an escaped quote may be the first or last character of the value
+			out = append(out, []rune([]string{`\"`, `\\`, `\n`, `\t`, `\x41`, `\u00e9`}[s.Intn(6, "strescseq")])...)
+			continue
+		}
 		out = append(out, rs[s.Intn(len(rs), "strch")])
 	}
 	return string(out)
